@@ -5,12 +5,12 @@ ENTRY = dict(
         title="Replacing wire-cut markers by Move operations preserves circuit semantics",
         prop_file="Properties/C03.v",
         corr_files=["Corr/C03Corr.v"],
-        theorems=["c03_qubits", "c03_registers", "c03_instructions", "c03_instructions_kept", "c03_instructions_inserted",
-                  "c03_semantics", "c03_cut_wires_as_moves", "c03_unwrap", "c03_semantics_cut_wires", "c03_markers_transparent", "c03_move_targets_fresh", "c03_expand", "c03_expand_letters",
-                  "c03_observable_reading", "c03_expectation_values", "c03_reconstructed_transport", "c03_cut_and_reconstruct_partial",
+        theorems=["c03_qubits", "c03_registers_model_identity", "c03_instructions", "c03_instructions_kept", "c03_instructions_inserted",
+                  "c03_semantics", "c03_cut_wires_as_moves_def", "c03_unwrap", "c03_semantics_cut_wires_cor", "c03_markers_transparent", "c03_move_targets_fresh", "c03_expand", "c03_expand_letters",
+                  "c03_observable_reading", "c03_expectation_values", "c03_reconstructed_transport", "c03_cut_and_reconstruct_partial", "c03_cut_and_reconstruct_generated_partial",
                   "c03_facts"],
         allowed_axioms=[],
-        facts=["value_error_sites", "move_table_coeffs"],
+        facts=["value_error_sites", "move_table_coeffs", "c03_function_sites"],
         harness="c03",
         level_text="Unbounded theorems (any number of qubits, any instruction list, any number and interleaving of markers; induction over the "
                    "instruction list; only hypothesis: qubit indices in range and markers on one qubit) about the executable model of "
@@ -18,8 +18,8 @@ ENTRY = dict(
                    "fresh qubit per marker on it (n + #markers qubits); instruction k of the result is instruction k of the input relocated to "
                    "the current positions (markers become the factory op on two adjacent positions, everything else keeps operation and "
                    "classical bits); in the symbolic wire-history (Herbrand) semantics with every inserted operation executed as Move = "
-                   "reset-and-swap - for _transform_cuts_to_moves (c03_semantics) and for cut_wires' placeholder form with any factory "
-                   "(c03_cut_wires_as_moves, c03_semantics_cut_wires) - the wire of every original qubit ends at the position of the original "
+                   "reset-and-swap - for _transform_cuts_to_moves (c03_semantics; for cut_wires' placeholder form only via the near-definitional "
+                   "c03_cut_wires_as_moves_def: the operation at the marker positions is overwritten by Move, whatever it was) - the wire of every original qubit ends at the position of the original "
                    "Qubit object, all other positions end in |0>, all classical bits carry the same measurement terms, and each inserted Move "
                    "hits a wire that is still |0>; expand_observables puts qubit q's letter exactly on that final position. Closed under the "
                    "global context. The model is compared with cut_wires and _transform_cuts_to_moves on ~14000 generated cases per quick run. "
@@ -31,8 +31,14 @@ ENTRY = dict(
                    "instantiated with one Move coefficient list per marker (the table of decompositions.py, c03_facts; exact by C02's "
                    "c02_move_exact) and Ev := value of the expanded observables on cut_wires' output, transported to the ORIGINAL observables on "
                    "the ORIGINAL circuit; kappa <> 0 is discharged; the physics postulates P1, P2+P3 and C01's bookkeeping hypotheses (exact "
-                   "weights, coefficient list, result shapes, exact results) remain hypotheses; c03_ex_clause_f computes an instance (one Move, "
-                   "Bloch vector (2/7,3/7,6/7), observables Z,X,Y) in which P1 and P2+P3 hold with the Move coefficients. It is additionally "
+                   "weights, coefficient list, result shapes, exact results) remain hypotheses; c03_cut_and_reconstruct_generated_partial composes "
+                   "instead with C01's whole-chain theorem (coefficient list, projection lists, result layout and the exact-results equation "
+                   "produced by the C05 model `core` and an exact sampler), leaving P1, P2+P3, exact_weights and the agreement of the two views of "
+                   "the observable groups. NOT proved in either: that table/og/L are what partition_problem returns on cut_wires' output, i.e. "
+                   "that C = one Move list per marker is the `bases` of that request. c03_ex_clause_f_full instantiates ALL hypotheses for one "
+                   "Move (Bloch vector (2/7,3/7,6/7), observables Z,X,Y; 8 maps of probability 1/8, two partitions, hand-written "
+                   "quasi-distributions): P1 holds by computation, P2+P3 by definition of term (:= the product), E is hand-written; the C06 model "
+                   "returns [6/7; 2/7; 3/7]. It is additionally "
                    "tested end-to-end on 28 (quick) / 84 (thorough) small circuits per run (cut_wires -> expand_observables -> partition_problem "
                    "-> generate(inf) -> ExactSampler -> reconstruct, judged against an independent simulation of the uncut circuit; chk_e2e "
                    "compares the values in Coq over Q, no model).",
@@ -40,7 +46,9 @@ ENTRY = dict(
                    "compositional circuit semantics factors through the wire-history denotation); M1 is monitored, not proved: the contract "
                    "judge_accepts_clean_case runs an independent numpy branch simulator (all 15 two-qubit Paulis / all weight-1 Paulis / random "
                    "ones with phases, per classical outcome) on every generated case whose recorded output is the modelled one and fails the run "
-                   "if it disagrees. c03_registers is an identity of the model (registers are only compared, nothing is proved about them).",
+                   "if it disagrees. c03_registers_model_identity has no proof content (the model returns its own arguments): the 'registers kept' clause of the property "
+                   "is covered by the correspondence and the judge only. c03_facts is absence-aware: c03_function_sites lists every function of "
+                   "wire_cutting_transforms.py with its ValueError site count (0 included), so a renamed/deleted function breaks the obligation.",
         assumptions=[
             "Model/CutWires.v is a hand-written model of _circuit_structure_mapping and _transform_cut_wires (marker count = number of "
             "markers per qubit; classical bits of relocated instructions kept, in the instruction's own order); tied to the source by the "
@@ -63,7 +71,14 @@ ENTRY = dict(
             "complex number and cancels in every <psi|P|psi>, so no expectation value (and no outcome statistic) depends on it; name and "
             "metadata have no semantics",
             "clause f (c03_cut_and_reconstruct_partial) inherits every hypothesis of c01_roundtrip_partial except kappa <> 0: P1, P2+P3 for "
-            "the circuit produced by cut_wires, exact weights (C04), coefficient list (C05), result shapes and the exact-results equation "
-            "(C06/C13); M1 enters as 'the value is a functional of (reading, classical bits, phase)'",
+            "the circuit produced by cut_wires (kind: physics), exact weights (C04), coefficient list (C05), result shapes and the "
+            "exact-results equation (C06/C13) (kind: success case, established by code modelled elsewhere; the _generated_ variant derives "
+            "all but exact_weights from C05's core); L/W/pds resp. table/og are NOT linked to the partition of cut_wires' output; "
+            "M1 enters as 'the value is a functional of (reading, classical bits, phase)'",
+            "M1 does not reach conditional gates: a condition is folded into the gate id and the conditioning clbit's term is not an "
+            "argument of the wire term, so for circuits with c_if the term equality does not determine the state; such circuits are only "
+            "compared structurally (model comparison, wire tracking), never simulated",
+            "wf_circ bounds qubit indices only: an instruction on a clbit >= the number of clbits is ignored on both sides of c03_semantics "
+            "(equal for the wrong reason); Qiskit cannot build such a circuit, it is outside the quantifier",
         ],
     )
